@@ -348,6 +348,9 @@ def run_unit_symbolic(unit, mode, deadline=None):
                                               "arguments) outside the declared cache inventory" % unit.name, 'discharged',
                                               solver='frame', kind='frame', path=list(ctx.trace)))
         unit.check(P, inp, old, out)
+        if getattr(unit, 'stdout_silent', False):
+            # decoders may report problems on stderr; standard output belongs to the document the command line prints
+            P.prove(len(ctx.stdout) == 0, "prints nothing on stdout")
         holder['checked'] = holder.get('checked', 0) + P.checked
 
     res = explore(run_path, assert_on=(mode == 'assert'), max_paths=unit.max_paths, setup=setup, deadline=deadline)
